@@ -12,7 +12,7 @@ Fixpoint value_eqb (a b : value) {struct a} : bool :=
   | VInt x, VInt y => Z.eqb x y
   | VNil, VNil | VT, VT => true
   | VSym x, VSym y => String.eqb x y
-  | VList xs, VList ys =>
+  | VList xs, VList ys | VVals xs, VVals ys =>
       (fix eql (xs ys : list value) {struct xs} : bool :=
          match xs, ys with
          | [], [] => true
